@@ -48,7 +48,7 @@ func runC02(c *fw.Ctx) {
 	// sampled shapes with sizes up to 7 (the enumeration above stops at 3); deterministic in the seed
 	{
 		br := rand.New(rand.NewSource(c.Seed*1000003 + 17))
-		for i := 0; i < c.Pick(40, 400); i++ {
+		for i := 0; i < c.Pick(40, 1200); i++ {
 			shapes = append(shapes, BigShape(br, 1, 150))
 		}
 	}
@@ -108,6 +108,10 @@ func runC02(c *fw.Ctx) {
 		}
 	}
 
+	// the same UNTRACKED operand object serves two applications, each back-propagated before the next is built
+	for i := 0; i < c.Pick(1500, 30000); i++ {
+		c.Case(func(k *fw.K) { c02Reuse(k) })
+	}
 	// groups of different same-rank shapes that collide under ad-hoc cache keys: each case runs the same
 	// operation on every shape of the group, one after the other, in one process
 	for gi, group := range CollidingShapes {
@@ -429,6 +433,64 @@ func runC02(c *fw.Ctx) {
 					return ref.Instr{Op: "matmul"}, []*ref.T{u(k, shape), u(k, sb)}
 				}, 2)
 			}
+		}
+	}
+}
+
+// c02Reuse: a constant (untracked) operand is used with a tracked operand, the result is back-propagated, and the very same
+// constant object is then used with a FRESH tracked operand: the second application must deliver its vector-Jacobian product too.
+func c02Reuse(k *fw.K) {
+	shape := RandShape(k.Rng, 0, 3, 3)
+	ops := []string{"elmax", "elmin", "add", "sub", "mul", "div", "patch"}
+	if len(shape) >= 1 {
+		ops = append(ops, "concat", "dot")
+	}
+	op := ops[k.Rng.Intn(len(ops))]
+	in := ref.Instr{Op: op}
+	uv := Shuffled(k.Rng, Unique(k.Rng, shape, 2.5, 4)) // away from the tracked operands' values: no ties for ElMax / ElMin, no small divisors
+	u := rt.MustLeaf(uv, false)
+	constFirst := k.Rng.Intn(2) == 0
+	k.Key("reuse/%s/%s/%v", op, shapeKey(shape), constFirst)
+	k.Count("constant_operand_reused_cases", 1)
+	for round := 0; round < 2+k.Rng.Intn(2); round++ {
+		tv := Shuffled(k.Rng, Unique(k.Rng, shape, 0.2, 2))
+		xs, leaves, ti := []*ref.T{tv, uv}, []tensor.Tensor{rt.MustLeaf(tv, true), u}, 0
+		if constFirst {
+			xs, leaves, ti = []*ref.T{uv, tv}, []tensor.Tensor{u, leaves[0]}, 1
+		}
+		k.Case = gcase{In: in, Ops: xs, Tracked: []bool{ti == 0, ti == 1}}
+		y, err := ref.Apply(in, xs)
+		if err != nil {
+			k.Failf("harness: %v", err)
+			return
+		}
+		g := randG(k, y.Shape)
+		var ry tensor.Tensor
+		if p := call(func() {
+			if ry, err = rt.Exec(in, leaves); err == nil {
+				err = weightedBackprop(ry, g)
+			}
+		}); p != nil || err != nil {
+			k.Failf("%s, application %d over the same constant operand object: panic=%v err=%v", op, round+1, p, err)
+			return
+		}
+		gr := leaves[ti].Gradient()
+		if gr == nil {
+			k.Failf("%s, application %d over a constant operand object that an earlier, already back-propagated application used: the fresh tracked operand received no gradient", op, round+1)
+			return
+		}
+		got, err := rt.Read(gr)
+		if err != nil {
+			k.Failf("%s: gradient unreadable: %v", op, err)
+			return
+		}
+		if e := gradClose(got, ref.VJP(in, xs, y, g, ref.RuleSum)[ti]); e != nil {
+			k.Failf("%s, application %d over the same constant operand object: gradient of the tracked operand: %v", op, round+1, e)
+			return
+		}
+		if u.Gradient() != nil {
+			k.Failf("%s: the untracked operand received a gradient", op)
+			return
 		}
 	}
 }
